@@ -24,8 +24,9 @@ import SpecVerif.Proofs.Lemmas.EigenCrit
   `C19.mt_scale` (every eigenspectrum of `c • x` is `c •` the eigenspectrum of `x`, any table) and
   `C19.mt_scale_weight` (Thomson's adaptive weight is unchanged when the spectrum value and the data
   power are both multiplied by `|c|²`); they are not restated here.  Section 9 below proves the
-  statement for the WHOLE adaptive iteration (`mt_adapt_scale`, `mt_adapt_scale_data`): the 100-fuel
-  `while` loop of `pmtm(method='adapt')`, whose tolerance `0.0005·σ²/NFFT` scales with the data power,
+  statement for the WHOLE adaptive iteration (`mt_adapt_scale`, `mt_adapt_scale_data`): the
+  `while` loop of `pmtm(method='adapt')` (first pass unconditional, then at most 99 conditional ones), whose
+  tolerance `0.0005·σ²/NFFT` scales with the data power,
   takes the same stopping decision at every pass, so the returned weights are unchanged and the adaptive
   multitaper mean is multiplied by `|c|²` (helpers: `Proofs/Lemmas/AdaptLoop.lean`, `SpecVerif.AdaptL`).
 -/
@@ -457,7 +458,7 @@ open SpecVerif.AdaptL SpecVerif.ShiftL
 to the two comparisons of the model (`reGt (t·a) (t·b) = reGt a b`, `reLe0 (t·z) = reLe0 z`: any positive
 real `t`, see `mt_adapt_scale_data`).  With the data multiplied by `c` and every `|eigenspectrum|²`
 multiplied by `t`, `pmtm(method='adapt')` — the start estimate, the data power `σ²`, the tolerance
-`tolc·σ²/NFFT`, and all (at most 100) passes of the `while` loop with its stopping test
+`tolc·σ²/NFFT`, and all (at least one, at most 100) passes of the `while` loop with its stopping test
 `Σ_f|S[f]-S1[f]|/NFFT > tol` — returns the SAME `NFFT × nwin` table of weights, and the adaptive
 multitaper mean `Σ_t W[f][t]·SkA[t][f]/nwin` is multiplied by `t`.  No hypothesis on `NFFT`, `N`, `nwin`,
 the eigenvalues or `tolc`: nothing is cancelled except the common factor `t` in Thomson's weight. -/
